@@ -65,9 +65,24 @@ func (c *RawHTTPResponder) GetHeaders() http.Header {
 	return c.response.Header
 }
 
+// Reports whether a response with this status may carry a body (RFC 9110 section 6.4.1).
+func bodyAllowedForStatus(status int) bool {
+	return !(status >= 100 && status <= 199) && status != http.StatusNoContent && status != http.StatusNotModified
+}
+
 func (c *RawHTTPResponder) writeResponse() error {
-	// If Content-Length is unknown, we must either use chunked encoding or close the connection.
-	if c.response.ContentLength < 0 {
+	if !bodyAllowedForStatus(c.response.StatusCode) {
+		// No body and no body framing: the terminating chunk after a 204 or 304 would be read
+		// by the client as the start of the next response on this connection.
+		c.response.Body = http.NoBody
+		c.response.ContentLength = 0
+		c.response.TransferEncoding = nil
+		if c.response.Request == nil {
+			// Lets Response.Write leave out "Content-Length: 0", which these statuses must not carry
+			c.response.Request = &http.Request{Method: http.MethodGet}
+		}
+	} else if c.response.ContentLength < 0 {
+		// If Content-Length is unknown, we must either use chunked encoding or close the connection.
 		c.response.TransferEncoding = []string{"chunked"}
 	}
 
